@@ -243,10 +243,27 @@ def _clauses(ck, repo):
     ck.ob("_validate_field_follow_interface checks the arguments of every field it found", c is not None and unparse(c.args[-1]) == "errors", f, c or f.node, construct="glue:field-args")
     af = sc.methods["_validate_arguments_have_valid_type"]
     av = FuncView(af)
-    its = sorted(unparse(l.iter) for l in av.loops() if isinstance(l, ast.For))
-    ck.ob("argument types are checked on every field of every type and on every directive definition",
-          its == sorted(["self.type_definitions.values()", "gqltype.implemented_fields.values()", "field.arguments.values()", "self._directive_definitions.values()", "directive.arguments.values()"]),
-          af, af.node, construct="glue:argument-sites", detail=str(its))
+    # every iteration of the method, statement loops and comprehension generators alike, with the filters in force
+    gens = []   # (target, iter text, filters)
+    for l in av.loops():
+        if isinstance(l, ast.For):
+            gens.append((unparse(l.target), unparse(l.iter), [t for t, o in av.conditions(l) if not t.startswith("isinstance(errors")]))
+    for n in ast.walk(af.node):
+        if isinstance(n, (ast.ListComp, ast.GeneratorExp, ast.SetComp)):
+            for g_ in n.generators:
+                gens.append((unparse(g_.target), unparse(g_.iter), [unparse(x) for x in g_.ifs]))
+    local_lists = {unparse(n.targets[0]) for n in walk_no_nested(af.node) if isinstance(n, ast.Assign)}
+    sources = [(t, it, fl) for t, it, fl in gens if it not in local_lists]
+    tvar = next((t for t, it, _ in sources if it == "self.type_definitions.values()"), "gqltype")
+    fvar = next((t for t, it, _ in sources if it == f"{tvar}.implemented_fields.values()"), "field")
+    dvar = next((t for t, it, _ in sources if it == "self._directive_definitions.values()"), "directive")
+    its = sorted(it for _, it, _ in sources)
+    want = sorted(["self.type_definitions.values()", f"{tvar}.implemented_fields.values()", f"{fvar}.arguments.values()", "self._directive_definitions.values()", f"{dvar}.arguments.values()"])
+    # the only filter a candidate may meet: "this type has fields at all" (what the AttributeError handler expresses in the loop form)
+    allowed = {f"hasattr({tvar}, 'implemented_fields')"}
+    filters = sorted({x for _, _, fl in sources for x in fl} - allowed)
+    ck.ob("argument types are checked on every field of every type and on every directive definition", its == want and not filters,
+          af, af.node, construct="glue:argument-sites", detail=f"iterations {its}; filters {filters}")
     for meth, (ext_cls, tgt_cls) in EXT_KINDS.items():
         m = sc.methods[meth]
         mv = FuncView(m)
@@ -296,9 +313,23 @@ def _clauses(ck, repo):
     for rel, cname in (("tartiflette/types/list.py", "GraphQLList"), ("tartiflette/types/non_null.py", "GraphQLNonNull")):
         c = repo.cls(rel, cname)
         eq = repo.find_method(c, "__eq__")
-        txt = unparse(eq.node) if eq is not None else ""
-        own = eq is not None and eq.cls is c and f"isinstance({eq.positional_params[1]}, {cname})" in txt and f"self.gql_type == {eq.positional_params[1]}.gql_type" in txt
-        same_class = eq is not None and ("type(self) is type(" in txt or "self.__class__ is" in txt) and "gql_type" in txt
+        ok_eq = False
+        if eq is not None:
+            o_ = eq.positional_params[1]
+            rets = FuncView(eq).returns()
+            class_tests = {f"isinstance({o_}, type(self))", f"isinstance({o_}, self.__class__)", f"type(self) is type({o_})", f"type({o_}) is type(self)", f"type(self) == type({o_})",
+                           f"self.__class__ is {o_}.__class__", f"{o_}.__class__ is self.__class__"}
+            if eq.cls is c:
+                class_tests.add(f"isinstance({o_}, {cname})")   # naming the class is right only in the class's own method
+            inner = {f"self.gql_type == {o_}.gql_type", f"{o_}.gql_type == self.gql_type"}
+            if len(rets) == 1 and rets[0].value is not None:
+                v = rets[0].value
+                alts = v.values if isinstance(v, ast.BoolOp) and isinstance(v.op, ast.Or) else [v]
+                conj = [a for a in alts if unparse(a) not in ("self is " + o_, o_ + " is self")]
+                if len(conj) == 1:
+                    parts = {unparse(x) for x in (conj[0].values if isinstance(conj[0], ast.BoolOp) and isinstance(conj[0].op, ast.And) else [conj[0]])}
+                    ok_eq = bool(parts & class_tests) and bool(parts & inner) and parts <= class_tests | inner
+        own, same_class = ok_eq, False
         ck.ob(f"{cname}.__eq__ compares wrappers of its own kind only (so `[T]` never equals `T!` in the interface-conformance clauses)", own or same_class, eq, eq.node if eq else c.node,
               where=rel, construct=f"type-eq:{cname}", detail="the conformance clauses compare field and argument types with == / !=")
     # a swallowed per-type failure must not end the scan of the remaining types
